@@ -343,9 +343,18 @@ impl ProcfsHandle {
         let subpath = subpath.as_ref();
         let mut oflags = oflags.into();
 
+        // Drop any trailing /-es.
+        let (subpath, trailing_slash) = utils::path_strip_trailing_slash(subpath);
+        if trailing_slash {
+            // A trailing / implies we want O_DIRECTORY.
+            oflags.insert(OpenFlags::O_DIRECTORY);
+        }
+
         // Creation flags make no sense inside procfs. The resolver refuses
         // them for regular lookups, but the final component of a magic-link
-        // is opened directly below, so they have to be refused up front.
+        // is opened directly below, so they have to be refused up front. This
+        // has to look at the flags we will actually use: O_TMPFILE contains
+        // O_DIRECTORY, which a trailing slash has just added.
         if oflags.intersects(OpenFlags::O_CREAT | OpenFlags::O_EXCL)
             || oflags.contains(OpenFlags::O_TMPFILE)
         {
@@ -354,13 +363,6 @@ impl ProcfsHandle {
                 description: "open flags for procfs cannot contain O_CREAT, O_EXCL or O_TMPFILE"
                     .into(),
             })?
-        }
-
-        // Drop any trailing /-es.
-        let (subpath, trailing_slash) = utils::path_strip_trailing_slash(subpath);
-        if trailing_slash {
-            // A trailing / implies we want O_DIRECTORY.
-            oflags.insert(OpenFlags::O_DIRECTORY);
         }
 
         // If the target is not a symlink, use an O_NOFOLLOW open. This defends
